@@ -1565,6 +1565,90 @@ def set_once_rule(cx, rep, rid):
 
     # ---- events and per-path counts
     wrappers2 = {}    # gid -> (param index, count): local functions that reach the setter through their own parameter
+    reserved = {g: v[1] for g, v in keyed.items()}    # gid -> the reserved word of a keyed / helper wrapper (None: several)
+
+    # ---- guards that exclude the reserved key.  `t.insert_type(k, e); if k != "default" { t.insert_value(k, e) }` is the
+    # repair of the defect this rule was written for (5edde90): a keyed call counts for nothing when it sits in the THEN
+    # branch of an `if` whose condition implies key != reserved word, or in the ELSE branch of one whose negation does
+    # (`!=`, `==`, `!`, `&&` in then, `||` in else; no match forms, no early exits - anything else keeps weight 1).
+    # "The key" on both sides is the SAME string: equal after stripping borrows / to_string / clone and following
+    # plain `let x = <that>` aliases, down to the same binding and the same field path (`renamed` vs. `name` of one
+    # record are different keys although they share a root).
+    plain_lets = {}
+    for g, t in trees.items():
+        m = plain_lets[g] = {}
+        for n in walk(t["body"]):
+            if n["k"] == "LetStmt" and n.get("init") is not None and n["pat"]["k"] == "P.Binding":
+                m.setdefault(n["pat"].get("lid"), []).append(n["init"])
+    SAME_STRING = ("to_string", "clone", "as_str", "as_ref", "to_owned", "borrow", "deref", "into", "as_deref")
+
+    def same_string_root(g, e):
+        fields = []
+        for _ in range(24):
+            k = e.get("k")
+            if k in ("AddrOf", "DropTemps") or (k == "Unary" and e.get("op") == "Deref"):
+                e = e["e"]
+            elif k == "MethodCall" and e.get("method") in SAME_STRING and not e.get("args"):
+                e = e["recv"]
+            elif k == "Field":
+                fields.append(e["name"])
+                e = e["e"]
+            elif k == "Path" and e.get("res") == "local":
+                inits = plain_lets[g].get(e.get("lid"), [])
+                if len(inits) != 1:
+                    return (e.get("lid"), tuple(reversed(fields)))
+                e = inits[0]
+            else:
+                return None
+        return None
+
+    def implies_not_reserved(g, cond, truth, key, word):
+        """`cond` evaluating to `truth` implies key != word"""
+        while cond.get("k") == "DropTemps":
+            cond = cond["e"]
+        k = cond.get("k")
+        if k == "Unary" and cond.get("op") == "Not":
+            return implies_not_reserved(g, cond["e"], not truth, key, word)
+        if k == "Binary" and cond.get("op") in ("Eq", "Ne"):
+            if (cond["op"] == "Ne") != truth:
+                return False
+            for a_, b_ in ((cond["l"], cond["r"]), (cond["r"], cond["l"])):
+                if reserved_word(a_) == word and same_string_root(g, b_) == key:
+                    return True
+            return False
+        if k == "Binary" and ((cond.get("op") == "And" and truth) or (cond.get("op") == "Or" and not truth)):
+            return implies_not_reserved(g, cond["l"], truth, key, word) or implies_not_reserved(g, cond["r"], truth, key, word)
+        return False
+    guards_of = {}
+
+    def guards(g, call):
+        if g not in guards_of:
+            m = guards_of[g] = {}
+
+            def go(n, gs):
+                if not isinstance(n, dict):
+                    return
+                if n["k"] in ("Call", "MethodCall"):
+                    m[id(n)] = gs
+                if n["k"] == "If":
+                    go(n["cond"], gs)
+                    go(n["then"], gs + [(n["cond"], True)])
+                    go(n.get("else"), gs + [(n["cond"], False)])
+                    return
+                if n["k"] == "Closure":
+                    gs = []
+                for c in _children(n):
+                    go(c, gs)
+            go(trees[g]["body"], [])
+        return guards_of[g].get(id(call), [])
+
+    def guarded(g, n, kexpr, word):
+        if word is None:
+            return False
+        key = same_string_root(g, kexpr)
+        if key is None or any(x["k"] in ("Assign", "AssignOp") and any(y["k"] == "Path" and y.get("lid") == key[0] for y in walk(x["l"])) for x in walk(trees[g]["body"])):
+            return False      # (a key that is assigned to between the test and the call is not the tested string)
+        return any(implies_not_reserved(g, c_, tr_, key, word) for c_, tr_ in guards(g, n))
 
     def weight(g, n):
         if n["k"] not in ("Call", "MethodCall"):
@@ -1583,6 +1667,8 @@ def set_once_rule(cx, rep, rid):
         a = args_of(n)
         if idx >= len(a):
             return 0
+        if guarded(g, n, a[idx], reserved.get(tg)):
+            return 0
         return w if tainted(g, a[idx]) else 0
 
     def param_weight(g, n, pl):
@@ -1595,6 +1681,8 @@ def set_once_rule(cx, rep, rid):
             return None
         a = args_of(n)
         if idx >= len(a):
+            return None
+        if guarded(g, n, a[idx], reserved.get(tg)):
             return None
         lids = {x.get("lid") for x in closure_paths(derivs[g], a[idx]) if x["k"] == "Path" and x.get("res") == "local"}
         for i, ps in enumerate(pl):
@@ -1671,6 +1759,8 @@ def set_once_rule(cx, rep, rid):
                 cnt.note(cnt.ev(t["body"], {()}))
                 if cnt.best:
                     wrappers2[g] = (i, cnt.best)
+                    words = {reserved.get(callee_gid(n)) for n in walk(t["body"]) if param_weight(g, n, pl) == i}
+                    reserved[g] = next(iter(words)) if len(words) == 1 else None
     n_fns = 0
     for g in sorted(trees):
         t = trees[g]
